@@ -355,7 +355,8 @@ PROPS["C18"]["manifest"]["text"] += (" The shared-state extractor also lists pac
 
 PROPS["C12"]["manifest"]["text"] += (" Tx.AddP2PKHInputsFromTx is modelled too (GoBT/Fee/FromTx.lean, op C12.fromtx): inputs_from_tx_spend_matching_outputs - every"
                                      " input it adds spends an output of the previous transaction that pays to HASH160 of the key, with that output's index, value"
-                                     " and script; the transaction's own inputs are untouched.")
+                                     " and script; the transaction's own inputs are untouched; inputs_from_tx_cover_matching_outputs - when no error is reported every such"
+                                     " output has become an input.")
 PROPS["C11"]["manifest"]["text"] += (" Quotes that cannot answer (nil, a fee type missing, zero value) are a stream of their own (C11.noquote): every"
                                      " fee-dependent operation reports an error and leaves the transaction alone.")
 
